@@ -99,7 +99,14 @@ pub fn check_registration(es: &[Entry]) -> Vec<Violation> {
 }
 
 pub fn check(t: &mut Tape, es: &[Entry]) -> Out {
-    let coll = ZW::collection();
+    thread_local! {
+        static COLL: cucumber::step::Collection<ZW> = ZW::collection();
+        static RES: Vec<regex::Regex> = super::zoo::entries().iter().map(|e| regex::Regex::new(e.re).unwrap()).collect();
+    }
+    COLL.with(|coll| RES.with(|res| check_with(t, es, coll, res)))
+}
+
+fn check_with(t: &mut Tape, es: &[Entry], coll: &cucumber::step::Collection<ZW>, res: &[regex::Regex]) -> Out {
     let mut viol = vec![];
     let mut labels = vec![];
     let mut nontrivial = false;
@@ -112,7 +119,8 @@ pub fn check(t: &mut Tape, es: &[Entry]) -> Out {
         // the keyword under test: usually the entry's own, sometimes another one
         let kw = if t.chance(1, 5) { [Kw::Given, Kw::When, Kw::Then][t.pick(3)] } else { e.kw };
         // reference: candidates among entries of that keyword
-        let cands: Vec<&Entry> = es.iter().filter(|x| x.kw == kw && regex::Regex::new(x.re).unwrap().is_match(&text)).collect();
+        let cand_idx: Vec<usize> = (0..es.len()).filter(|i| es[*i].kw == kw && res[*i].is_match(&text)).collect();
+        let cands: Vec<&Entry> = cand_idx.iter().map(|i| &es[*i]).collect();
         let got = coll.find(&step(kw, &text));
         let mut row = json!({"keyword": format!("{kw:?}"), "text": text, "candidates": cands.iter().map(|c| c.func).collect::<Vec<_>>()});
         match (cands.len(), got) {
@@ -121,7 +129,7 @@ pub fn check(t: &mut Tape, es: &[Entry]) -> Out {
             (0, Err(e)) => viol.push(v("unexpected-match", format!("{kw:?} `{text}`: unexpected ambiguity {e}"))),
             (1, Ok(Some((f, _, _, ctx)))) => {
                 let e = cands[0];
-                let caps = regex::Regex::new(e.re).unwrap().captures(&text).unwrap();
+                let caps = res[cand_idx[0]].captures(&text).unwrap();
                 let exp = (e.expect)(&caps, &text);
                 let mut w = ZW::default();
                 let res = std::panic::catch_unwind(std::panic::AssertUnwindSafe(|| block_on(f(&mut w, ctx))));
